@@ -51,6 +51,7 @@ type c14Srv struct {
 	lastReq  *dns.Msg
 	nclient  int
 	stuck    int // packets the server never finished with (each costs a watchdog period)
+	policy   func(pkt []byte) int // reference accept policy of this server (default: c14Policy)
 }
 
 func newC14Srv(w *core.W, kind string, seed uint64, conf ...func(*dns.Server)) *c14Srv {
@@ -205,6 +206,9 @@ func c14Judge(w *core.W, s *c14Srv, pkt []byte, wellFormed *dns.Msg, kind string
 		return
 	}
 	pol := c14Policy(pkt)
+	if s.policy != nil {
+		pol = s.policy(pkt)
+	}
 	w.Cover("policy", []string{"accept", "formerr", "ignore", "notimp"}[pol])
 	checkReply := func(rcode int, keepOpcode bool) {
 		if len(replies) != 1 {
@@ -285,9 +289,24 @@ var c14Counts = []uint16{0, 1, 2, 3, 65535}
 
 func c14Admission(w *core.W, j int) {
 	kind := []string{"udp", "tcp"}[j%2]
-	s := newC14Srv(w, kind, uint64(w.Seed)+uint64(j))
+	var conf []func(*dns.Server)
+	custom := j%5 == 4
+	if custom {
+		// a policy of the user's own: the four actions chosen by the low bits of the ID, whatever the
+		// flags and counts say ("passes the accept policy" is about the configured policy)
+		conf = append(conf, func(srv *dns.Server) {
+			srv.MsgAcceptFunc = func(dh dns.Header) dns.MsgAcceptAction {
+				return []dns.MsgAcceptAction{dns.MsgAccept, dns.MsgReject, dns.MsgIgnore, dns.MsgRejectNotImplemented}[dh.Id%4]
+			}
+		})
+		w.Count("custom_policy_servers", 1)
+	}
+	s := newC14Srv(w, kind, uint64(w.Seed)+uint64(j), conf...)
 	if s == nil {
 		return
+	}
+	if custom {
+		s.policy = func(pkt []byte) int { return int(binary.BigEndian.Uint16(pkt) % 4) } // same numbering as c14Policy: 0 accept, 1 FORMERR, 2 ignore, 3 NOTIMP
 	}
 	defer s.stop()
 	r := w.Rng(j)
@@ -394,7 +413,7 @@ func c14Admission(w *core.W, j int) {
 	}
 	// (4) several messages pipelined on one stream connection, delivered in arbitrary segments:
 	// every accepted query is handled exactly once and answered, every other one gets its policy outcome
-	if kind == "tcp" {
+	if kind == "tcp" && !custom { // (c14Pipeline builds its expectations from the default policy)
 		for round := 0; round < 6; round++ {
 			c14Pipeline(w, s, r, 2+r.IntN(7))
 		}
